@@ -199,6 +199,10 @@ class ScaledProblem(Problem):
         # tocoo() of a COO matrix is the matrix itself: never rescale the caller's data
         jac = jac_orig.tocoo(copy=True)
 
+        if not np.issubdtype(jac.dtype, np.floating):
+            # integer-valued data would truncate the rescaled entries
+            jac = jac.astype(float)
+
         jac_row = jac.row
         jac_col = jac.col
         jac_data = jac.data
@@ -219,6 +223,9 @@ class ScaledProblem(Problem):
         hess_orig = self.problem.lag_hess(x_orig, y_orig)
 
         hess = hess_orig.tocoo(copy=True)
+
+        if not np.issubdtype(hess.dtype, np.floating):
+            hess = hess.astype(float)
 
         hess_row = hess.row
         hess_col = hess.col
